@@ -157,7 +157,7 @@ class Model:
                 if None (default), the raw complex coefficients are printed
         """
         func = (lambda x: x) if func is None else func
-        a = list(self.pin_dic.keys())
+        a = [pin.name for pin in self.pin_dic]
         ind = list(self.pin_dic.values())
         indsort = np.argsort(a)
         a = [a[i] for i in indsort]
@@ -405,7 +405,7 @@ class Model:
         """Function for printing pins of model"""
         print(f"Pins of model {self} (id={id(self)})")
         for pin, n in self.pin_dic.items():
-            print(f"{pin:5s}:{n:5}")
+            print(f"{pin.name:5s}:{n:5}")
         print("")
 
     def pin_mapping(self, pin_mapping: Dict[Pin, Pin]):
